@@ -1,9 +1,82 @@
 (** C20 — property theorems only. *)
 From Coq Require Import ZArith.
-From C33 Require Import C20.Model C20.Proofs.
+From C33 Require Import C20.Model C20.Spec C20.Proofs.
 Open Scope Z_scope.
+
+Theorem C20_decode_recode : forall c, 0 <= c < 2^32 ->
+  compact_to_big (big_to_compact (compact_to_big c)) = compact_to_big c.
+Proof. exact decode_recode. Qed.
+Print Assumptions C20_decode_recode.
+
+Theorem C20_recode_idempotent : forall c, 0 <= c < 2^32 ->
+  big_to_compact (compact_to_big (big_to_compact (compact_to_big c))) =
+  big_to_compact (compact_to_big c).
+Proof. exact recode_idempotent. Qed.
+Print Assumptions C20_recode_idempotent.
+
+Theorem C20_canonical_form : forall c, 0 <= c < 2^32 ->
+  let r := big_to_compact (compact_to_big c) in
+  0 <= r < 2^32 /\
+  compact_to_big r = compact_to_big c /\
+  big_to_compact (compact_to_big r) = r /\
+  (r = 0 \/ (16777216 <= r /\ 32768 <= r mod 8388608)) /\
+  (compact_to_big c = 0 -> r = 0).
+Proof. exact canonical_form. Qed.
+Print Assumptions C20_canonical_form.
+
+Theorem C20_precision : forall n, 0 <= n -> fits_format n = true ->
+  let d := compact_to_big (big_to_compact n) in
+  d = n - n mod 256 ^ lost_bytes n /\
+  0 <= n - d < 256 ^ lost_bytes n /\
+  (lost_bytes n = 0 -> d = n).
+Proof. exact precision_full. Qed.
+Print Assumptions C20_precision.
+
+Theorem C20_truncated_shift : forall n, truncated_shift n = n - n mod 256 ^ lost_bytes n.
+Proof. exact truncated_shift_eq. Qed.
+Print Assumptions C20_truncated_shift.
+
+Theorem C20_precision_bounds : forall n, 0 <= n -> bytelen n <= 254 ->
+  let d := compact_to_big (big_to_compact n) in
+  0 <= n - d /\
+  (3 < bytelen n -> 2 * n < 256 ^ bytelen n -> n - d < 256 ^ (bytelen n - 3)) /\
+  (3 <= bytelen n -> 256 ^ bytelen n <= 2 * n -> n - d < 256 ^ (bytelen n - 2)) /\
+  (bytelen n <= 2 \/ (bytelen n = 3 /\ 2 * n < 256 ^ bytelen n) -> d = n).
+Proof. exact precision_bounds. Qed.
+Print Assumptions C20_precision_bounds.
+
+Example C20_precision_nonvacuous :
+  fits_format 0x123456789abcdef = true /\ lost_bytes 0x123456789abcdef = 5 /\
+  fits_format (2 ^ 2039 - 1) = true /\ fits_format 0xff0001 = true /\ lost_bytes 0xff0001 = 1.
+Proof. vm_compute. repeat split. Qed.
+
+Theorem C20_precision_unguarded_refuted : ~ C20_precision_unguarded_full.
+Proof. exact precision_unguarded_refuted. Qed.
+Print Assumptions C20_precision_unguarded_refuted.
+
+Theorem C20_negative_exact_partial : forall a, 0 < a -> fits_format a = true -> truncated a = a ->
+  compact_to_big (big_to_compact (- a)) = - a.
+Proof. exact roundtrip_neg_exact. Qed.
+Print Assumptions C20_negative_exact_partial.
+
+Theorem C20_precision_negative_refuted : ~ C20_precision_negative_full.
+Proof. exact precision_negative_refuted. Qed.
+Print Assumptions C20_precision_negative_refuted.
 
 Theorem C20_work_antitone : forall c1 c2,
   0 < compact_to_big c1 <= compact_to_big c2 -> calc_work c2 <= calc_work c1.
 Proof. exact calc_work_antitone. Qed.
 Print Assumptions C20_work_antitone.
+
+Theorem C20_work_antitone_encoded : forall t1 t2, 0 < t1 <= t2 -> fits_format t2 = true ->
+  0 < compact_to_big (big_to_compact t1) <= compact_to_big (big_to_compact t2) /\
+  calc_work (big_to_compact t2) <= calc_work (big_to_compact t1).
+Proof. exact work_antitone_encoded. Qed.
+Print Assumptions C20_work_antitone_encoded.
+
+Example C20_nonvacuous :
+  0 <= 486604799 < 2^32 /\ 0 < compact_to_big 486604799 /\
+  big_to_compact (compact_to_big 486604799) = 486604799 /\
+  0 < compact_to_big 0x1c00ffff <= compact_to_big 486604799 /\
+  calc_work 486604799 = 4295032833.
+Proof. vm_compute. repeat split; discriminate. Qed.
